@@ -61,8 +61,11 @@ def default_run_one(mod, case, tally):
         if obs.handler == "exception" and not any("crash" in f["sig"] for f in got) and getattr(mod, "CRASH_IS_VIOLATION", True):
             # an unhandled exception out of the connection handler on this property's (well-formed) workload means the
             # property's deliveries cannot have happened either; never fold it into "inconclusive"
-            exc = (obs.handler_exc or "").strip().splitlines()[-1][:80] if obs.handler_exc else "?"
-            name = exc.split(":")[0].split(".")[-1].strip("| ") or "Exception"
+            import re as _re
+
+            names = _re.findall(r"\b([A-Z][A-Za-z]*(?:Error|Exception|Interrupt|Exit))\b(?=[:(\n]|$)", obs.handler_exc or "", _re.M)
+            names = [x for x in names if "Group" not in x]
+            name = names[-1] if names else "Exception"
             got.append({"clause": "crash", "sig": "%s.handler-crashed/%s" % (mod.ID, name),
                         "detail": "the connection handler raised on this workload: %s" % (obs.handler_exc or "")[-700:]})
         if obs.spin and not any("spin" in f["sig"] for f in got):
